@@ -58,6 +58,9 @@ CHECKS = {
  "C11": dict(cat="fault_enumeration", tech="exhaustive enumeration of connection-notification sequences x grace x ownership change x partition x stop, each with deviation-bounded placement of every notification on the real code in virtual time (serial dispatcher as in nats.go); exact virtual-time oracle", ref="DESIGN §5 C11",
    note="Sequences over {disconnect, reconnect, closed} of length <=3 (quick) / <=4 (thorough); grace 2H+7ms, 3H+1ms and the 5s default (short sequences); d<=1; one monitored instance; the usurper is an outside writer. Interleavings of the dispatcher, the timer goroutine and the verification goroutine inside one virtual instant are only explored in fine-mode windows.",
    text="With a fault-free store a timer-step demotion happens only at exactly latest-disconnect + grace and only if no reconnect followed; when the grace period of a leading, still disconnected (or closed) instance elapses it is demoted at that instant and OnDemote runs; after a reconnect the instance keeps leadership iff the verification reads (applied by the harness) show its id and token, and OnDemote runs otherwise; no sequence blocks Status(), leaves a stuck goroutine, spins or kills the worker."),
+ "C20": dict(cat="exploration", tech="exhaustive enumeration of the program space (sets of concurrent API callers x lifecycle phase x latency seed), every program executed free-running under the Go race detector in virtual time", ref="DESIGN §5 C20",
+   note="The deciding step per execution is dynamic happens-before race detection, not enumeration of memory-model interleavings (the property itself is phrased over race-detector runs of the scenario generator). Quick: all pairs of single calls, every call against five lifecycle sequences, triples over a reduced alphabet, 5 phases, 3 seeds; thorough: all pairs of two-call sequences and all triples, 5 seeds. The harness store's mutex adds happens-before edges that may hide a race; connection callbacks are dispatched serially as nats.go does. Two known findings (e.ctx) are listed in known_findings.json by field and writing function.",
+   text="No data race is reported on any explored program other than the two recorded races on the election context field; reports are normalised to the shared field (read from the source line of the writing site) and the writing function, so a race on another field or from another writer is a new violation."),
 }
 NA_DEFAULT = "check not built yet in this round (planned in DESIGN.md §9a); not claimed until it runs alarm-free"
 
